@@ -1,0 +1,18 @@
+//go:build verif
+
+// Machine-checked contracts (Gobra-style //@ comments) for the verification harness in /verif.
+// This file contains no code; it is compiled only under the build tag "verif".
+package trie
+
+// ---------------------------------------------------------------------------------------------
+// node references (C11): a node whose RLP encoding is shorter than 32 bytes is embedded in its parent, every other node
+// (and the root, `force`) is replaced by the hash of its encoding - the rule that makes the root a function of the
+// content and equal to the reference root. Only this embed-or-hash decision is under contract; the encoding itself,
+// the hash and the node database are outside.
+
+//@ func (*hasher).store
+//@   props C11
+//@   requires h != nil
+//@   nosafety
+//@   atcall cache assert [only-forced-nodes-and-encodings-of-32-bytes-or-more-are-hashed] calls(Encode) == 1 && (force || len(h.tmp) >= 32)
+//@   ensures  [embedded-only-below-32-bytes] calls(Encode) == 1 && calls(cache) == 0 ==> len(h.tmp) < 32 && !force && result0 == n
